@@ -248,6 +248,16 @@ func (o *objectGoReflect) elemToValue(ev reflect.Value) (Value, reflectValueWrap
 		return _null, nil
 	}
 
+	if ev.CanAddr() {
+		// The wrapper of a non-compound element refers to the value that was read, not to the slot it was read from:
+		// passing the addressable element on would make Export() follow later re-assignments of the slot (which breaks
+		// swaps through a temporary and Array.prototype.reverse() on e.g. []*T, []map[K]V or []MyEnum). Only values
+		// whose type has pointer-receiver methods keep referring to the slot, so that those methods can modify it.
+		if t := ev.Type(); ev.Kind() == reflect.Ptr || reflect.PointerTo(t).NumMethod() == t.NumMethod() {
+			ev = reflect.ValueOf(ev.Interface())
+		}
+	}
+
 	return o.val.runtime.toValue(ev.Interface(), ev), nil
 }
 
